@@ -64,6 +64,11 @@ def drvStep (s : St) (ws : List String) : St × String :=
   | ["reset", n] => match n.toNat?.bind cfgOf with
       | some c => (init c defaultLocal, "ok")
       | none => (s, "bad-op")
+  | ["nrfscan", h] =>
+      -- harness/adv/nrf_scan.cpp: the PDU is placed in the zeroed 36 octet receive buffer of the nRF52 radio
+      match parseHex h with
+      | some bs => if bs.length < 2 ∨ bs.length > 36 then (s, "bad-op") else (s, "n=" ++ boolStr (nrfAnswers s (pad36 bs)))
+      | none => (s, "bad-op")
   | _ => match parseOp ws with
       | some op => let (s', o) := step s op; (s', outStr o)
       | none => (s, "bad-op")
